@@ -29,6 +29,7 @@ SCOPE = {
     #  sub-cases of pool set 2 / existing state 3, dropping them keeps the closed model at ~60 %)
     "thorough": dict(mc="NPods = 2  PodArchs = {1,2,3,4,5,6,7,8,9,10,11,12}  Catalogs = {1,2,3,4}  PoolSets = {2,3,4,5}  Existings = {0,1,3}  Daemons = {0,1,2,3}",
                      gen="NPods = 2  PodArchs = {1,2,3,4,5,6,7,8,9,10,11,12}  Catalogs = {1,2,3,4}  PoolSets = {1,2,3,4,5}  Existings = {0,1,2,3}  Daemons = {0,1,2,3}",
+                     mc3="NPods = 3  PodArchs = {2,4,9,11}  Catalogs = {2,4}  PoolSets = {3,5}  Existings = {0,3}  Daemons = {1,3}",
                      gen3="NPods = 3  PodArchs = {2,4,5,8,9,10,11,12}  Catalogs = {2,4}  PoolSets = {1,3,5}  Existings = {0,3}  Daemons = {1,3}",
                      replay=None, explore={"basic": 4000, "interpod": 1000, "reserved": 1000}, mc_workers=None),
 }
@@ -92,6 +93,10 @@ def check(run):
               "NPods = 1  PodArchs = {1}  Catalogs = {1}  PoolSets = {1}  Existings = {0}  Daemons = {0}", "Spec",
               ["Inv_C01_NoOvercommit", "Inv_C01_EveryLaunchOptionHostsItsPods", "Inv_C01_RequiredTermNeverDropped"])
     run.closed_model("Scheduling", "Scheduling_MC_run.cfg", workers=4 if dev else None, heap="4g" if dev else "8g", timeout=2400)
+    if tier.get("mc3") and not skip_model:
+        write_cfg(run, "Scheduling_MC3_run.cfg", tier["mc3"], "Spec",
+                  ["Inv_C01_NoOvercommit", "Inv_C01_EveryLaunchOptionHostsItsPods", "Inv_C01_RequiredTermNeverDropped"])
+        run.closed_model("Scheduling", "Scheduling_MC3_run.cfg", workers=4 if dev else None, heap="4g" if dev else "8g", timeout=2400)
     write_cfg(run, "Scheduling_Cov_run.cfg", "NPods = 2  PodArchs = {2,4,7,9,11}  Catalogs = {2}  PoolSets = {3}  Existings = {3}  Daemons = {3}",
               "Spec", ["Inv_C01_NoOvercommit", "Inv_C01_EveryLaunchOptionHostsItsPods", "Inv_C01_RequiredTermNeverDropped"])
     r = run.tlc("Scheduling", "Scheduling_Cov_run.cfg", workers=2, coverage=True, timeout=900)
